@@ -38,14 +38,15 @@ class Ctx:
         self.model = model if model is not None else Model(overlay)
         fl = getattr(self.model, 'flat', None)
         self._flat_stats = None
-        if fl is not None and (fl.inlined or fl.left or getattr(fl, 'renames', None) or getattr(fl, 'gathers', 0) or getattr(fl, 'constants', None)):
+        if fl is not None and (fl.inlined or fl.left or getattr(fl, 'renames', None) or getattr(fl, 'gathers', 0) or getattr(fl, 'constants', None) or getattr(fl, 'local_renames', 0)):
             self._flat_stats = {'spliced_call_sites': dict(sorted(fl.inlined.items())),
                                 'left_as_calls': {k: sorted(set(v)) for k, v in sorted(fl.left.items())},
                                 'no_longer_referenced': sorted(getattr(fl, 'dead', [])),
                                 'private_attributes_mapped_back_to_reference_names': dict(getattr(fl, 'renames', {}) or {}),
                                 'functions_with_gather_spellings_normalised': getattr(fl, 'gathers', 0),
                                 'in_place_ufunc_statements_normalised': getattr(fl, 'out_ufuncs', 0),
-                                'post_reference_constants_substituted': dict(getattr(fl, 'constants', {}) or {})}
+                                'post_reference_constants_substituted': dict(getattr(fl, 'constants', {}) or {}),
+                                'functions_with_locals_renamed_back_to_reference_names': getattr(fl, 'local_renames', 0)}
         self.only_key = only_key
         self.instances: Dict[str, List[str]] = {}
         self.floors: Dict[str, int] = {}
